@@ -1991,6 +1991,21 @@ impl InferContext {
         }
     }
 
+    /// The `Escape` expressions whose operand has the type unit instead of a code type:
+    /// it yields no code value at the macro stage (see the rule for `Expr::Escape`).
+    pub fn unit_typed_escapes(&self) -> std::collections::BTreeSet<ExprKey> {
+        let is_unit = |e: &ExprNodeId| {
+            self.result_memo
+                .get(&e.0)
+                .is_some_and(|t| matches!(t.get_root().to_type(), Type::Primitive(PType::Unit)))
+        };
+        self.result_memo
+            .keys()
+            .filter(|e| matches!(ExprNodeId(**e).to_expr(), Expr::Escape(inner) if is_unit(&inner)))
+            .copied()
+            .collect()
+    }
+
     fn substitute_all_intermediates(&mut self) {
         let mut e_list = self
             .result_memo
